@@ -68,7 +68,7 @@ CHECKS = {
  "C12": dict(engine="K+S", category="model_checking",
    technique="Kani/CBMC (SAT) on UnionFind (4 symbolic unions on 5 elements vs a label-array reference); concolic symbolic execution of solve_triangular(_left,_vec), inv_triangular, Schur::from_partial_triangular and dir_sum_decomp over symbolic entries in Z, Z[i] and Q (unit diagonal as solver-side precondition), with explicitly stored zeros; A X = Y, S = D - C A^-1 B, F M B = S, F B = I, block-sum identity discharged per class by z3",
    text="Each kernel is called twice per run on the same worker so the thread-local scratch buffer must return to zero (debug assertions are compiled in). Upper and lower, r in 0..3, stored-zero variants, units other than +-1 through Z[i] and Q.",
-   note=S_NOTE + "Outside: equality across thread counts; matrices beyond 4x4 (a defect that needs a column with >= 16 entries is out of reach); UnionFind is exercised only through dir_sum_decomp.",
+   note=S_NOTE + "Outside: equality across thread counts; matrices beyond 4x4, except one tall-thin dir_sum_decomp input (17x2, thorough also 25x3: a long column next to a 2- or 3-entry column); UnionFind is exercised only through dir_sum_decomp.",
    design="5/C12"),
  "C13": dict(engine="S", category="model_checking",
    technique="concolic symbolic execution of SpMat/SpVec/Mat operations and Trans sequences over symbolic integer entries (loop-free in the scalars: classes are zero patterns), compared entrywise with a naive Vec<Vec<term>> reference; polynomial identities normalise syntactically, the rest is discharged by z3",
